@@ -27,6 +27,8 @@ from collections import defaultdict
 
 import z3
 
+STRATEGY = os.environ.get('P_STRATEGY', 'mixed')
+
 # ---------------------------------------------------------------------------
 # runner
 # ---------------------------------------------------------------------------
@@ -925,13 +927,24 @@ def explore(binary, scenario, props, budget, seed):
     samples = []
     work = [('policy', p) for p in ((seed % 3), ((seed + 1) % 3), ((seed + 2) % 3))]
     t0 = time.time()
+    turn = 0
+    # schedules synthesised from a trace that showed something new - a sequence of callbacks, or a path through the
+    # code of one task (its sequence of lock sites) not seen before - are tried first
+    hi = []
+    behaviours = set()
     try:
-        while work:
+        while work or hi:
             if stats['classes'] >= budget['classes'] or time.time() - t0 > budget['seconds']:
                 stats['exhaustive'] = False
-                stats['pending'] = len(work)
+                stats['pending'] = len(work) + len(hi)
                 break
-            kind, payload = work.pop(0)
+            turn += 1
+            if hi and STRATEGY != 'bfs':
+                kind, payload = hi.pop(0)
+            elif not work:
+                break
+            else:
+                kind, payload = work.pop(0)
             if kind == 'policy':
                 res = runner.run(policy=payload, max_steps=budget.get('max_steps', 6000))
                 used_order = None
@@ -979,9 +992,14 @@ def explore(binary, scenario, props, budget, seed):
                     for prop, vsig, order in lock_cycle_queries(tr, enc):
                         stats['predictive_models'] += 1
                         work.insert(0, ('order', order))
+            beh = tuple((m[1], m[2]) for m in tr.marks if m[2].startswith(('cb+', 'task+', 'ready')))
+            flows = {(t, tuple((tr.ev[i]['k'], tr.ev[i]['site']) for i in ixs)) for t, ixs in tr.by_task.items()}
+            novel = beh not in behaviours or not flows <= behaviours
+            behaviours.add(beh)
+            behaviours |= flows
             for order in flips(tr, enc, tried, budget['flips_per_trace']):
                 stats['flip_models'] += 1
-                work.append(('order', order))
+                (hi if novel and stats['classes'] > 3 else work).append(('order', order))
     finally:
         runner.close()
     stats['sites'] = sorted(stats['sites'])
